@@ -88,12 +88,14 @@ func (s *Server) Initialize(ctx context.Context, params *protocol.InitializePara
 		settings := parseSettingsFromRaw(s.getSettings(), params.InitializationOptions)
 		s.setSettings(settings)
 	}
+	// the folder is given as a URI: percent-encoded where its name has blanks,
+	// non-ASCII letters, '%' or '#', like the URIs of documents
 	if len(params.WorkspaceFolders) > 0 {
-		s.rootURI = strings.TrimPrefix(params.WorkspaceFolders[0].URI, "file://")
+		s.rootURI = rootURIToPath(params.WorkspaceFolders[0].URI)
 	} else {
 		rootURI := params.RootURI //nolint:staticcheck // keep for backward compatibility
 		if rootURI != "" {
-			s.rootURI = strings.TrimPrefix(string(rootURI), "file://")
+			s.rootURI = rootURIToPath(string(rootURI))
 		}
 	}
 
@@ -580,6 +582,15 @@ func splitLines(s string) []string {
 		lines = append(lines, s[start:])
 	}
 	return lines
+}
+
+// rootURIToPath gives the directory a workspace folder URI names. Anything
+// that is not a file URI is taken as it was before: with the scheme cut off.
+func rootURIToPath(folderURI string) string {
+	if path := uriToPath(protocol.DocumentURI(folderURI)); path != "" {
+		return path
+	}
+	return strings.TrimPrefix(folderURI, "file://")
 }
 
 func uriToPath(docURI protocol.DocumentURI) string {
